@@ -212,7 +212,7 @@ fn check_flash(m: &mut Monitor, fam: &str, case: u64, f: &PhaseEquilibrium<Model
 
 fn zoo_mixtures(m: &mut Monitor, cfg: &Config) {
     let col = Collections::load();
-    let n = cfg.tier.pick(2500, 20_000);
+    let n = cfg.tier.pick(2500, 100_000);
     let idx: Vec<u64> = (0..n).collect();
     par_cases(m, &idx, |m, _, &i| {
         let mut rng = Rng::derive(cfg.seed, "c05-zoo", i);
@@ -292,7 +292,12 @@ fn zoo_mixtures(m: &mut Monitor, cfg: &Config) {
                     && d0.vapor().is_stable(Default::default()).unwrap_or(false)
                     && d0.liquid().is_stable(Default::default()).unwrap_or(false)
                     && b0.vapor().is_stable(Default::default()).unwrap_or(false);
-                if stable {
+                // the statement compares the bubble pressure with the dew pressure of the vapour-liquid
+                // envelope; a "dew point" whose two phases are both liquid-like (the high-pressure
+                // liquid-liquid or upper-dew branch) is a different saturation point
+                if crate::c12::lle_like(&d0) || crate::c12::lle_like(&b0) {
+                    m.skip("bubble pressure not below dew pressure", "one of the solves returned a dense-dense (liquid-liquid / upper branch) equilibrium");
+                } else if stable {
                     m.check_bool("bubble pressure not below dew pressure", &format!("{fam}|pbub>=pdew"), case + 3, pb >= pd * (1.0 - 1e-9), || json!({"info": info, "p_bub": pb.to_reduced(), "p_dew": pd.to_reduced()}));
                 } else {
                     m.skip("bubble pressure not below dew pressure", "a saturated phase is itself unstable (liquid-liquid demixing)");
@@ -330,7 +335,7 @@ fn zoo_mixtures(m: &mut Monitor, cfg: &Config) {
 
 fn diagrams(m: &mut Monitor, cfg: &Config) {
     let pairs = hydrocarbon_pairs(1.8);
-    let n = cfg.tier.pick(100, 600);
+    let n = cfg.tier.pick(100, 3000);
     let idx: Vec<u64> = (0..n).collect();
     par_cases(m, &idx, |m, _, &i| {
         let mut rng = Rng::derive(cfg.seed, "c05-diag", i);
